@@ -11,12 +11,18 @@ META = dict(
     level_text="Theorems (Coq, closed under the global context): for every clock sequence over Z of any length and "
                "every generator state the rendered identifiers are pairwise distinct (strictly increasing "
                "(second,counter)), the text format is injective in (prefix, second, counter) so different prefixes "
-               "never collide; the pinned-commit generator is refuted by clock 5,5,6,5. Tie to the code: the model's "
+               "never collide; the pinned-commit generator is refuted by clock 5,5,6,5. THREADS: for any number of threads and "
+               "every interleaving of the steps of generate() (take the lock when free / read clock and update / build "
+               "the identifier and release) the identifiers handed out are an initial segment of the sequential "
+               "generator's on the clock readings in lock-acquisition order, hence pairwise distinct; building the "
+               "identifier after the release is refuted (two threads, one second). Tie to the code: the model's "
                "generate/str(int)/format are evaluated in Coq and compared with /repo's generator on exhaustive clock "
-               "step sequences and random ones; an independent duplicate search runs on the implementation.",
+               "step sequences and random ones; the thread model against a second caller scheduled at every lock release "
+               "of the first; an independent duplicate search runs on the implementation.",
     level_note="Trusted: Coq kernel/vm_compute; harness (scripted clock replaces event_id.time); RLock mutual exclusion "
-               "(threads reduce to the sequential theorem); str(int) as modelled by dec. Proof level is complete for the "
-               "sequential generator; real-thread scheduling is modelled by the lock's serialisation order.",
+               "(a thread takes the lock only when it is free - the step relation of Model/IdGenThreads.v); str(int) as "
+               "modelled by dec. The interleaving granularity is the three steps of generate(); the CPython scheduler "
+               "below that granularity is covered by the lock (nothing shared is touched outside it).",
     rule="clock step sequences over {-2..+2} (exhaustive up to the tier's length), random long "
          "sequences incl. large jumps and negative seconds, prefixes none / plain / containing '_' and digits; "
          "non-trivial = the clock repeats a second or steps backwards at least once",
@@ -166,6 +172,32 @@ def run(ctx, res):
                                      detail=dict(a=mine, b=other)))
             break
     res.extra["lock_release_interleavings"] = n_hook
+    # ... and the same interleaving against the THREAD model (Model/IdGenThreads.v, identifier built under the lock):
+    # two threads, schedule A A A B B B per round, both reading the same clock value
+    tcases, tmeta = [], []
+    for seq in list(sequences(5)):
+        r = hook_case(seq)
+        if r is None:
+            break
+        mine, other = r
+        inter = [x for pair in zip(mine, other) for x in pair]
+        try:
+            flat = [int(v) for i in inter for v in i.split("_")[1:]]
+        except ValueError:
+            flat = [-1]
+        clk = [c for c in seq for _ in (0, 1)]
+        sched = [0, 0, 0, 1, 1, 1] * len(seq)
+        tcases.append(("((true, 2%%nat), (%s, [%s]))" % (zs(clk), "; ".join("%d%%nat" % t for t in sched)), flat))
+        tmeta.append(seq)
+        res.note_case(("threads", tuple(seq)), True)
+    tm, terr = common.coq_run_cases("C16T", "Model.IdGenThreads", "run_C16_threads",
+                                    "((bool * nat) * (list Z * list nat))", tcases)
+    res.errors += terr
+    res.traces_validated += len(tcases) - len(tm)
+    for idx, model_out in tm[:10]:
+        res.mismatches.append(dict(case=dict(clock=tmeta[idx], interleaving="B.generate() at every lock release of A"),
+                                   impl=tcases[idx][1], model=model_out))
+    res.extra["thread_model_cases"] = len(tcases)
     # shrink failures: keep the shortest
     res.failures.sort(key=lambda f: len(f["case"].get("clock", [])))
 
